@@ -51,7 +51,9 @@ extern "C" void h_roundtrip(void) {
 #if STRITEMS
         DeckItem it(NAMES[i], std::string());
         char c1 = nondet_char(), c2 = nondet_char(); ASSUME(c1 >= 'A' && c1 <= 'Z' && ((c2 >= 'A' && c2 <= 'Z') || c2 == ' ' || c2 == '/' || c2 == '*'));     // embedded blank, slash or star inside the quotes
-        val[i] = std::string(1, c1) + std::string(1, c2) + "X";
+        char c3 = 'X';
+        if (i == 0 || i == NITEMS - 1) { c3 = nondet_char(); ASSUME((c3 >= 'A' && c3 <= 'Z') || c3 == ' '); }                    // first and last item: the value may END in a blank (blank-padded names)
+        val[i] = std::string(1, c1) + std::string(1, c2) + std::string(1, c3);
         if (dflt[i]) it.push_backDefault(std::string(1, char('p' + i))); else it.push_back(val[i]);
 #else
         DeckItem it(NAMES[i], int());
